@@ -280,7 +280,7 @@ class GeneralSurrogate:
         
         # If precipitate phase has not been trained, used underlying thermodynamics function
         else:
-            return self.therm.getDrivingForce(x, T, precPhase=precPhase, *args, **kwargs)
+            return self.therm.getDrivingForce(x, T, precPhase, *args, **kwargs)
 
     def trainDiffusivity(self, x, T, phase=None, logX=False, broadcast=True):
         '''
@@ -736,7 +736,7 @@ class MulticomponentSurrogate(GeneralSurrogate):
         
         # If precipitate phase has not been trained, used underlying thermodynamics function
         else:
-            return self.therm.curvatureFactor(x, T, precPhase=precPhase, *args, **kwargs)
+            return self.therm.curvatureFactor(x, T, precPhase, *args, **kwargs)
         
     def getGrowthAndInterfacialComposition(self, x, T, dG, R, gExtra, precPhase = None, *args, **kwargs):
         '''
